@@ -833,7 +833,8 @@ func gen(t *rapid.T) Case {
 			}
 		case "updfar":
 			ev.FAR = uint32(rapid.IntRange(1, 2).Draw(t, "far"))
-			ev.Action = rapid.SampledFrom([]uint16{FORW, FORW, FORW, DROP, BUFF, BUFF | NOCP}).Draw(t, "action")
+			// FORW, DROP and BUFF also together with other legal flags (DUPL; EDRT and DDPN in the second octet): the bits decide, not the word
+			ev.Action = rapid.SampledFrom([]uint16{FORW, FORW, FORW, DROP, BUFF, BUFF | NOCP, FORW | 0x10, FORW | 0x0100, DROP | 0x0400}).Draw(t, "action")
 			if rapid.IntRange(0, 5).Draw(t, "newohc") == 0 {
 				ev.NewGNB = rapid.IntRange(1, 3).Draw(t, "newgnb")
 				ev.NewTEID = rapid.Uint32().Draw(t, "newteid")
